@@ -119,7 +119,7 @@ def predicates(ins, impl, premature):
 
 def run_engine(d, seed, n, premature):
     fin, fimpl, fmodel = [os.path.join(d, x) for x in ("pair_in.txt", "pair_impl.txt", "pair_model.txt")]
-    q = C.run([C.HARNESS, "pairstep", "-seed", str(seed), "-n", str(n), "-events", "60", "-premature", str(premature), "-in", fin, "-impl", fimpl], cwd=d, timeout=3600)
+    q = C.run([C.HARNESS, "pairstep", "-seed", str(seed), "-n", str(n), "-events", "60", "-premature", str(premature), "-in", fin, "-impl", fimpl], cwd=d, timeout=C.engine_timeout())
     if q.returncode != 0:
         return None, None, None, (q.stdout or "")[-2000:]
     with open(fin) as f, open(fmodel, "w") as g:
